@@ -1,2 +1,5 @@
 import Proofs.C17
 import Proofs.C11
+import Proofs.Lemmas.Ipv4
+import Proofs.Lemmas.Flatten
+import Proofs.C10
